@@ -7,6 +7,7 @@ import (
 	"math/rand/v2"
 	"sort"
 	"strings"
+	"time"
 
 	"github.com/google/uuid"
 	"github.com/semafind/semadb/cluster"
@@ -373,6 +374,7 @@ func (c17) Execute(env *Env) {
 				for try := 0; try < 3 && ierr != nil && len(fr) == 0 && shardClosedErr(ierr.Error()); try++ {
 					// refused as a whole while sizing the shards (nothing was sent): ask again
 					env.Stat("clean-already-closed", 1)
+					sim.Sleep(50 * time.Millisecond) // a client retries later: the unload in progress finishes first
 					w.Call(entry, func(n *cluster.ClusterNode) { fr, ierr = n.InsertPoints(c, toPoints(op.Points)) })
 				}
 				// the one clean failure a healthy cluster may answer with: the request met a shard
@@ -405,6 +407,7 @@ func (c17) Execute(env *Env) {
 				var fp []cluster.FailedPoint
 				var uerr error
 				pts := toPoints(op.Points)
+				mark := markUnloads()
 				w.Call(entry, func(n *cluster.ClusterNode) { fp, uerr = n.UpdatePoints(c, pts) })
 				if uerr != nil {
 					env.Violate("spurious-error", "cluster-update", "%s: update failed: %v", where, uerr)
@@ -412,7 +415,7 @@ func (c17) Execute(env *Env) {
 				}
 				var processed []PointSpec
 				wantFailed := map[uuid.UUID]bool{}
-				closed := shardClosedIDs(env, fp)
+				closed := shardClosedIDs(env, fp, mark)
 				// a point whose merged document is oversized makes its shard reject its whole part of the batch
 				rejecting := ""
 				if op.Oversize > 0 {
@@ -442,6 +445,7 @@ func (c17) Execute(env *Env) {
 				for k, id := range op.IDs {
 					ids[k] = PID(id)
 				}
+				mark := markUnloads()
 				w.Call(entry, func(n *cluster.ClusterNode) { fp, derr = n.DeletePoints(c, ids) })
 				if derr != nil {
 					env.Violate("spurious-error", "cluster-delete", "%s: delete failed: %v", where, derr)
@@ -449,7 +453,7 @@ func (c17) Execute(env *Env) {
 				}
 				var processed []int
 				wantFailed := map[uuid.UUID]bool{}
-				closed := shardClosedIDs(env, fp)
+				closed := shardClosedIDs(env, fp, mark)
 				for _, id := range op.IDs {
 					u := PID(id)
 					if _, live := model.Docs[u]; live && reachable(u) && !closed[u] {
@@ -470,6 +474,7 @@ func (c17) Execute(env *Env) {
 				w.Call(entry, func(n *cluster.ClusterNode) { res, serr = n.SearchPoints(c, req) })
 				for try := 0; try < 3 && serr != nil && shardClosedErr(serr.Error()); try++ {
 					env.Stat("clean-already-closed", 1)
+					sim.Sleep(50 * time.Millisecond)
 					req = cloneRequest(*op.Search)
 					w.Call(entry, func(n *cluster.ClusterNode) { res, serr = n.SearchPoints(c, req) })
 				}
@@ -535,10 +540,17 @@ func (c17) Execute(env *Env) {
 // request was not executed by that shard; a later request reloads the shard.
 func shardClosedErr(msg string) bool { return strings.Contains(msg, "is already closed") }
 
-func shardClosedIDs(env *Env, fp []cluster.FailedPoint) map[uuid.UUID]bool {
+// shardClosedIDs: ids an update / delete reports as "shard unavailable" while an idle
+// unload of some shard overlapped the request (mark): their shard answered with the
+// clean "already closed" error, which the fan-out reports as an unavailable shard.
+// They count as not executed (the audits verify it) and the answer as incomplete.
+func shardClosedIDs(env *Env, fp []cluster.FailedPoint, mark unloadMark) map[uuid.UUID]bool {
 	out := map[uuid.UUID]bool{}
+	if !mark.overlapped() {
+		return out
+	}
 	for _, f := range fp {
-		if shardClosedErr(f.Err) {
+		if f.Err == "shard unavailable" || shardClosedErr(f.Err) {
 			out[f.Id] = true
 		}
 	}
@@ -593,6 +605,7 @@ func auditThroughNode(env *Env, w *ClusterWorld, addr string, c models.Collectio
 				break
 			}
 			env.Stat("clean-already-closed", 1) // met a shard being unloaded by its idle timer: a new request reloads it
+			sim.Sleep(50 * time.Millisecond)
 		}
 		if err != nil {
 			env.Violate("spurious-error", "cluster-read", "%s: reading points through %s failed: %v", where, addr, err)
